@@ -34,5 +34,5 @@ Definition ex_refused := solve exC exRank 50 [0%N] [] [(30%N, Some 1)] true (fun
 (* the unimplemented optional line is requested explicitly *)
 Definition ex_unimpl := solve exC exRank 50 [0%N; 1%N] [21%N] [(30%N, Some 1); (31%N, Some 2)] false (fun _ => None).
 
-Definition is_solved (r:state + (err * istore)) : bool := match r with inl s => solved s | inr _ => false end.
-Definition is_done (r:state + (err * istore)) : bool := match r with inl _ => true | inr _ => false end.
+Definition is_solved (r:state + (err * state)) : bool := match r with inl s => solved s | inr _ => false end.
+Definition is_done (r:state + (err * state)) : bool := match r with inl _ => true | inr _ => false end.
